@@ -31,9 +31,29 @@ class Capture(object):
         con.set_trace_callback(self.trace.append)
 
     def handle_of(self, ent, pk):
-        for h, o in enumerate(self.w.handles):
+        # a primary key can be reused after its first owner was deleted: the row / statement belongs to the latest object that was
+        # not cancelled before ever reaching the database
+        hs = self.w.handles
+        for h in range(len(hs) - 1, -1, -1):
+            o = hs[h]
+            if self.w.ents.index(o.__class__) == ent and o._pkval_ == pk and o._status_ != 'cancelled': return h
+        for h in range(len(hs) - 1, -1, -1):
+            o = hs[h]
             if self.w.ents.index(o.__class__) == ent and o._pkval_ == pk: return h
         return None
+
+    def dead_references(self):
+        """(holder, target) handle pairs: a live object whose reference attribute holds an object deleted in this session"""
+        w = self.w
+        out = []
+        for h, o in enumerate(w.handles):
+            if o._status_ in ('marked_to_delete', 'deleted', 'cancelled') or o._vals_ is None: continue
+            i = w.ents.index(o.__class__)
+            for j, a in enumerate(self.schema['entities'][i]['attrs']):
+                if a['kind'] != 'ref': continue
+                v = o._vals_.get(w.attrs[i][j])
+                if v is not None and hasattr(v, '_status_') and v._status_ in ('marked_to_delete', 'deleted', 'cancelled'): out.append([h, w.hid(v)])
+        return out
 
     def pending(self):
         w = self.w
@@ -146,6 +166,7 @@ def run(sname, ops):
     fd, path = tempfile.mkstemp(prefix='c16-', suffix='.sqlite'); os.close(fd); os.unlink(path)
     cap = Capture(sname, path)
     flushes, results, aborted = [], [], None
+    dead_origin = None
     try:
         cap.begin()
         w = cap.w
@@ -157,6 +178,12 @@ def run(sname, ops):
                 if r[0] == 'err' and B.snap_diff(before, w.snapshot()):
                     aborted = 'a raising call changed the session (C13): history stopped'
                     break
+                if dead_origin is None and cap.dead_references():
+                    inner = op[3] if op[0] == 'fault' else op
+                    dead_origin = inner[0]
+                    if inner[0] == 'setm':
+                        kinds = set(cap.schema['entities'][w.ent_of(inner[1])]['attrs'][j]['kind'] for j, a in inner[2])
+                        dead_origin = 'setm-' + '+'.join(sorted(kinds & {'ref', 'set'}))
                 continue
             pend = cap.pending()
             if any(x[0] == 'Z' or x[0] is None for x in pend['queue']):
@@ -170,7 +197,7 @@ def run(sname, ops):
             rows_after = cap.db_rows() if r[0] != 'ok' else None
             flushes.append({'pending': pend, 'rows': rows, 'outcome': outcome, 'error': r[1], 'stmts': stmts,
                             'unchanged_after_error': (rows_after == rows) if rows_after is not None else None,
-                            'hashed': w.hash_next[0]})
+                            'hashed': w.hash_next[0], 'dead_origin': dead_origin})
             if r[0] != 'ok':
                 aborted = 'commit failed: the session is over'
                 break
